@@ -143,6 +143,7 @@ theorem trk_why (m : C10St) (o : CObs) (h : Why m) : Why (trk m o) := by
   | cancelCall a => exact same rfl rfl
   | cbinReleased a => exact same rfl rfl
   | probeCtx a i c => exact same rfl rfl
+  | probeProm a _ _ _ => exact same rfl rfl
 
 theorem trk_fired_back (m : C10St) (o : CObs) (a : Nat) (h : a ∈ (trk m o).fired) :
     a ∈ m.fired ∨ o = .cbinReleased a := by
@@ -165,6 +166,7 @@ theorem trk_fired_back (m : C10St) (o : CObs) (a : Nat) (h : a ∈ (trk m o).fir
     · exact Or.inr rfl
     · exact Or.inl h
   | probeCtx a' i c => exact Or.inl h
+  | probeProm a' _ _ _ => exact Or.inl h
 
 theorem cc1_mon (b : St) (m : C10St) (o : CObs) (a : Nat) (c : Con) (h : CC1 b m a c) (hne : o ≠ .cbinReleased a) :
     CC1 b (trk m o) a c :=
@@ -216,6 +218,7 @@ theorem hook_go_cases (c : Con) (n : Nat) (res : Bool) (v e : Nat) :
   | access => simp only []; split <;> exact Or.inl rfl
   | wait => exact Or.inl rfl
   | resolve => exact Or.inl rfl
+  | promise => exact Or.inl rfl
   | rwr cb =>
     simp only []
     by_cases hw : c.wres = true
@@ -241,6 +244,7 @@ theorem hook_wres (c : Con) (n : Nat) (res : Bool) (v e : Nat) :
   | access => simp only []; split <;> exact Or.inl ⟨rfl, rfl⟩
   | wait => exact Or.inl ⟨rfl, rfl⟩
   | resolve => exact Or.inl ⟨rfl, rfl⟩
+  | promise => exact Or.inl ⟨rfl, rfl⟩
   | rwr cb =>
     simp only []
     by_cases hw : c.wres = true
@@ -626,6 +630,7 @@ theorem chkReleased_ok (s : CSt) (e : CEv) (s' : CSt) (m : C10St) (o : CObs) (h 
   | cancelCall a => rfl
   | ret a v x => rfl
   | probeCtx a i c => rfl
+  | probeProm a _ _ _ => rfl
   | cbin a i v => rfl
   | cbout a i r => rfl
 
